@@ -109,8 +109,11 @@ class Scene:
             if case.get("mapping"):
                 mapping = {int(k): v for k, v in case["mapping"].items()}
             else:
-                maps = list(itertools.islice(dtl.all_recs(G, S, self.leafmap), 300))
-                mapping = rng.choice(maps)
+                if rng.random() < 0.5:
+                    mapping = dtl.random_rec(rng, G, S, self.leafmap, high_p=rng.choice([0.2, 0.5, 0.9]))
+                else:
+                    maps = list(itertools.islice(dtl.all_recs(G, S, self.leafmap), 300))
+                    mapping = rng.choice(maps)
         self.m = mapping
         lm = {self.gnode[v]: self.snode[s] for v, s in self.leafmap.items()}
         om = {self.gnode[v]: self.snode[s] for v, s in mapping.items()}
@@ -379,7 +382,14 @@ def judge_events(scene, L, code, params, stub):
                 pos = (x + w / 2, y + d) if params.orientation.name == "VERTICAL" else (x + d, y + h / 2)
                 lab = br["name"]
             elif br["kind"] == "FULL_LOSS":
-                pos = None
+                # the cross sits on the trunk edge facing the child species in which the copy was LOST
+                # (left child species is drawn left / on top), level with the loss branch
+                tx, ty, tw, th = sl["trunk"]
+                kept_left = br["left"] is not None
+                if params.orientation.name == "VERTICAL":
+                    pos = (tx + tw if kept_left else tx, y + h / 2)
+                else:
+                    pos = (x + w / 2, ty + th if kept_left else ty)
                 lab = ""
             else:
                 pos = (x + w / 2, y + h / 2)
@@ -388,8 +398,7 @@ def judge_events(scene, L, code, params, stub):
     got_nodes = collections.Counter()
     for nd in P["nodes"]:
         html = P["colors"].get(nd["color"])
-        pos = None if nd["kind"] == "loss" else r4(nd["pos"])
-        got_nodes[(nd["kind"], html, nd["label"], pos)] += 1
+        got_nodes[(nd["kind"], html, nd["label"], r4(nd["pos"]))] += 1
     miss, extra = _match_nodes(want_nodes, got_nodes)
     if miss or extra:
         fails.append(("tikz", f"layout branches and TikZ \\node statements do not correspond one to one; only in layout: {miss[:2]}; only in TikZ: {extra[:2]}"))
@@ -500,8 +509,17 @@ def judge_geometry(scene, L):
     sp = sorted(L)
     for i in range(len(sp)):
         for j in range(i + 1, len(sp)):
-            if overlap(L[sp[i]]["trunk"], L[sp[j]]["trunk"]):
-                fails.append(("trunks", f"trunks of species {sp[i]} and {sp[j]} overlap: {L[sp[i]]['trunk']} / {L[sp[j]]['trunk']}"))
+            a, b = sp[i], sp[j]
+            ta, tb = L[a]["trunk"], L[b]["trunk"]
+            if overlap(ta, tb):
+                # mechanism classification (known finding F-TRUNK-OVERHANG): the overlap lies in the part of a trunk
+                # that overhangs its own species box, i.e. outside the box of one of the two species
+                ox0, oy0 = max(ta[0], tb[0]), max(ta[1], tb[1])
+                ox1, oy1 = min(ta[0] + ta[2], tb[0] + tb[2]), min(ta[1] + ta[3], tb[1] + tb[3])
+                orect = (ox0, oy0, ox1 - ox0, oy1 - oy0)
+                overhang = not S.comparable(a, b) and (not overlap(orect, L[a]["rect"]) or not overlap(orect, L[b]["rect"]))
+                fails.append(("trunks_overhang" if overhang else "trunks", f"trunks of species {a} and {b} overlap: {ta} / {tb}"
+                              + (" (the overlap lies in the part of a trunk that overhangs its own species box)" if overhang else "")))
     # anchors referenced by drawn branches exist
     for s, sl in L.items():
         kids = S.children[s]
